@@ -561,3 +561,6 @@ def parts(tier):
         HypPart('lis-directories', directories('LIS', tier), check, 40, 960),
         HypPart('bit-directories', directories('BIT', tier), check, 40, 960),
     ]
+
+
+RULE += '  Added after the seeding rounds: sub-directories up to three levels with recursive and non-recursive walks, names beginning with a dot, an input whose name begins with the whole name of a bad input.'
